@@ -308,7 +308,11 @@ pub fn rec_views(args: &Args) {
                 0 => json!({"f": "set_method", "a": {"name": method_name(*r.pick(ALL_METHODS))}}),
                 1 => json!({"f": "set_status", "a": {"name": response_name(*r.pick(ALL_RESPONSES))}}),
                 2 => {
-                    let path: String = (0..r.below(9)).map(|_| *r.pick(&path_alpha)).collect();
+                    let mut path: String = (0..r.below(9)).map(|_| *r.pick(&path_alpha)).collect();
+                    if r.chance(1, 10) {
+                        // hundreds of segments, a segment longer than 255 bytes
+                        path = match r.below(3) { 0 => "a/".repeat(300), 1 => format!("x/{}/y", "é".repeat(200)), _ => format!("{}/", "s".repeat(256)) };
+                    }
                     json!({"f": "set_path", "a": {"p": jbytes(path.as_bytes())}})
                 }
                 3 => json!({"f": "set_observe_flag", "a": {"name": *r.pick(&["register", "deregister"])}}),
